@@ -147,9 +147,72 @@ impl PanicInfo {
     }
 }
 
+thread_local! {
+    /// The case the current worker is executing: (property, check, pointer to the value, serializer).
+    /// Only read by the panic hook when a panic cannot unwind (the process is about to abort).
+    static CURRENT_CASE: std::cell::Cell<Option<(&'static str, &'static str, *const (), fn(*const ()) -> Value)>> = const { std::cell::Cell::new(None) };
+}
+
+fn ser_case<T: Serialize>(p: *const ()) -> Value {
+    // SAFETY: set_current_case stores a pointer to a value that outlives the case execution and clears it afterwards
+    serde_json::to_value(unsafe { &*(p as *const T) }).unwrap_or(Value::Null)
+}
+
+fn leak_str(s: &str) -> &'static str {
+    static POOL: Mutex<Vec<&'static str>> = Mutex::new(Vec::new());
+    let mut p = POOL.lock().unwrap();
+    if let Some(x) = p.iter().find(|x| **x == s) {
+        return x;
+    }
+    let l: &'static str = Box::leak(s.to_string().into_boxed_str());
+    p.push(l);
+    l
+}
+
+struct CurrentCaseGuard;
+impl Drop for CurrentCaseGuard {
+    fn drop(&mut self) {
+        CURRENT_CASE.with(|c| c.set(None));
+    }
+}
+
+fn set_current_case<T: Serialize>(prop: &str, check: &str, v: &T) -> CurrentCaseGuard {
+    CURRENT_CASE.with(|c| c.set(Some((leak_str(prop), leak_str(check), v as *const T as *const (), ser_case::<T>))));
+    CurrentCaseGuard
+}
+
 pub fn install_panic_hook() {
     let default = std::panic::take_hook();
     std::panic::set_hook(Box::new(move |info| {
+        // (a second panic on a thread whose first, captured panic is still unwinding)
+        let second = CAPTURE.with(|c| *c.borrow()) && LAST_PANIC.with(|p| p.borrow().is_some()) && std::thread::panicking();
+        if second {
+            // A panic that cannot unwind (typically a second panic in a destructor that runs while the
+            // first one unwinds) aborts the process: save the case and report before that happens.
+            let msg = info.payload().downcast_ref::<&str>().map(|s| s.to_string()).or_else(|| info.payload().downcast_ref::<String>().cloned()).unwrap_or_else(|| "<non-string panic>".into());
+            let (file, line) = info.location().map(|l| (l.file().to_string(), l.line())).unwrap_or_default();
+            let first = LAST_PANIC.with(|p| p.borrow().clone());
+            let pi = PanicInfo { msg: msg.clone(), file, line };
+            // the first panic is the cause; the second only tells where the cleanup failed
+            let cause = first.unwrap_or_else(|| pi.clone());
+            if let Some((prop, check, ptr, ser)) = CURRENT_CASE.with(|c| c.get()) {
+                let scenario = ser(ptr);
+                let h = hash64(&scenario.to_string()) & 0xffff_ffff_ffff;
+                let dir = std::path::PathBuf::from(verif_root()).join("replays");
+                let _ = std::fs::create_dir_all(&dir);
+                let in_quinn = cause.in_quinn() || pi.in_quinn();
+                let sig = format!("abort@{}", if cause.in_quinn() { cause.site() } else { pi.site() });
+                let path = dir.join(format!("{prop}-{check}-{h:012x}.json"));
+                let f = Failure { property: prop.to_string(), check: check.to_string(), sig: sig.clone(), msg: format!("the process was about to abort: panic '{}' at {}:{} followed by a panic that cannot unwind '{}' at {}:{}", cause.msg, cause.file, cause.line, pi.msg, pi.file, pi.line), scenario };
+                let _ = std::fs::write(&path, serde_json::to_string_pretty(&f).unwrap_or_default());
+                if in_quinn {
+                    println!("VIOLATION property={prop} replay={}\n  check={check} sig={sig}\n  | {}", path.display(), f.msg);
+                    std::process::exit(1);
+                }
+                println!("INCONCLUSIVE: harness panic that cannot unwind at {}:{}: {} (case saved as {})", pi.file, pi.line, pi.msg, path.display());
+                std::process::exit(2);
+            }
+        }
         let capturing = CAPTURE.with(|c| *c.borrow());
         let msg = if let Some(s) = info.payload().downcast_ref::<&str>() {
             s.to_string()
@@ -627,9 +690,12 @@ where
                             return Ok(());
                         }
                         *running[w].lock().unwrap() = Some((Instant::now(), v.clone()));
-                        let out = match catch(|| f(&v)) {
-                            Ok(o) => o,
-                            Err(p) => panic_to_case(p, false),
+                        let out = {
+                            let _cur = set_current_case(&report.opts.prop, name, &v);
+                            match catch(|| f(&v)) {
+                                Ok(o) => o,
+                                Err(p) => panic_to_case(p, false),
+                            }
                         };
                         *running[w].lock().unwrap() = None;
                         let counting = !failed_once.get();
@@ -792,9 +858,14 @@ pub fn load_replay(path: &PathBuf) -> Failure {
 
 pub fn replay_case<T: DeserializeOwned + Debug>(f: &Failure, run: impl Fn(&T) -> CaseOut) -> i32 {
     let v: T = serde_json::from_value(f.scenario.clone()).expect("scenario must deserialize");
-    let out = match catch(|| run(&v)) {
-        Ok(o) => o,
-        Err(p) => panic_to_case(p, true),
+    // (a replay that ends in a panic which cannot unwind is reported by the panic hook, not by an abort)
+    let sv = f.scenario.clone();
+    let out = {
+        let _cur = set_current_case(&f.property, &f.check, &sv);
+        match catch(|| run(&v)) {
+            Ok(o) => o,
+            Err(p) => panic_to_case(p, true),
+        }
     };
     match out.verdict {
         Verdict::Fail { sig, msg } => {
